@@ -10,7 +10,8 @@
 From Coq Require Import ZArith List Bool.
 From DV Require Import Model.PyPrims Model.Tree Model.Heap Model.HeapOps Model.C15Prims Model.MutPrims Gen.Mutators
      Model.C03GenInst Proofs.C03GenPrims Proofs.C03GenNode Proofs.C03GenHeq Proofs.C03GenRemove Proofs.C03GenEdge
-     Proofs.C03GenTree Proofs.C03GenSu Proofs.C03GenReseed.
+     Proofs.C03GenTree Proofs.C03GenSu Proofs.C03GenReseed Proofs.C03GenPrune Proofs.C03GenMisc Proofs.C03GenPoly Proofs.C03GenEnc.
+From DV Require Import Model.C01GenPrims Gen.Bipartition Proofs.C03Base.
 Import ListNotations.
 Open Scope Z_scope.
 
@@ -40,17 +41,21 @@ Print Assumptions insert_new_child_refines.
 
 (* Node.remove_child(node) / remove_child(node, suppress_unifurcations=False): exact, incl. the
    ValueError for a node that is not listed; node.edge.tail_node = None is the no-op Heap.v says *)
-Theorem remove_child_plain_refines : forall (p c : Z) (h : heap),
+Theorem remove_child_plain_refines : forall (fuel : nat) (p c : Z) (h : heap),
   Node_remove_child__suppress_unifurcations_False HG p c h = lift c (remove_child_plain p c h) /\
-  Node_remove_child HG p c false h = lift c (remove_child p c false h).
-Proof. exact (fun p c h => conj (gen_remove_plain_lift p c h) (gen_remove_child_false p c h)). Qed.
+  Node_remove_child HG fuel p c false h = lift c (remove_child p c false h).
+Proof. exact (fun fuel p c h => conj (gen_remove_plain_lift p c h) (gen_remove_child_false fuel p c h)). Qed.
 Print Assumptions remove_child_plain_refines.
 
-(* Node.remove_child(node, suppress_unifurcations) in both modes.  Hypothesis: self is not its own
-   child (the root branch iterates to_remove's child list while inserting into self's). *)
-Theorem remove_child_refines : forall (p c : Z) (su : bool) (h : heap),
+(* Node.remove_child(node, suppress_unifurcations) in both modes.  The root branch iterates
+   to_remove's LIVE child list (Python's list iterator, mfor_live) while inserting into self's.
+   Hypotheses: self is not its own child - then the iterated list object is never touched and the
+   iterator yields exactly Heap.v's reversed copy (proved, not assumed) - and the iterator gets more
+   fuel than any child list is long. *)
+Theorem remove_child_refines : forall (fuel : nat) (p c : Z) (su : bool) (h : heap),
   memz p (kids h p) = false ->
-  mres_sim c (Node_remove_child HG p c su h) (remove_child p c su h).
+  (forall x, (length (kids h x) < fuel)%nat) ->
+  mres_sim c (Node_remove_child HG fuel p c su h) (remove_child p c su h).
 Proof. exact gen_remove_child. Qed.
 Print Assumptions remove_child_refines.
 
@@ -165,11 +170,119 @@ Print Assumptions suppress_unifurcations_refines.
    compiled from the source; Edge.invert / remove_child / add_child / the seed_node setter are the
    compiled ones; collapse_basal_bifurcation, suppress_unifurcations and encode_bipartitions are
    interface operations here.  Hypotheses: HeapOps's own walk up the parent chain succeeds
-   (chain <> None: no parent cycle) and the generated loops get at least |chain| + 2 fuel. *)
+   (chain <> None: no parent cycle), the generated while loops get at least |chain| + 2 fuel, and the
+   live iteration over nsn_ch._child_nodes (leaf case) gets more fuel than that list is long.  That
+   iteration is over a LIVE list while add_child runs: proved to coincide with the snapshot
+   unconditionally (add_child never appends a node that is already listed). *)
 Theorem reseed_at_refines :
   forall (fuel : nat) (ns : Z) (ub cb su : bool) (h : heap) (ch : list Z),
     chain (fuel_of h) h ns = Some ch ->
     (length ch + 2 <= fuel)%nat ->
+    (forall h1 c1 h', hfold edge_invert (rev ch) h = HOk h1 -> kids h1 ns = [c1] ->
+                      remove_child_plain ns c1 h1 = HOk h' -> (length (kids h' c1) < fuel)%nat) ->
     to_hres (Tree_reseed_at HG fuel ns ub cb su h) = reseed_at ns ub cb su h.
 Proof. exact gen_reseed_at. Qed.
 Print Assumptions reseed_at_refines.
+
+(* ---- the prune family.  The `while True:` loops run on explicit fuel (HeapOps.v's loop uses
+   fuel_of h); leaf_node_iter() / postorder_node_iter() are read at loop entry (for the leaf loops this
+   is exact: the list is built completely before anything is removed).  Hypotheses: the generated fuel
+   is at least HeapOps.v's, and HeapOps.v itself does not give up (result <> HFuel). ---- *)
+Theorem prune_leaves_without_taxa_refines : forall (fuel : nat) (recursive ub su : bool) (h : heap),
+  (fuel_of h <= fuel)%nat ->
+  prune_leaves_without_taxa recursive ub su h <> HFuel ->
+  to_hres (Tree_prune_leaves_without_taxa HG fuel recursive ub su h) = prune_leaves_without_taxa recursive ub su h.
+Proof. exact gen_prune_leaves_without_taxa. Qed.
+Print Assumptions prune_leaves_without_taxa_refines.
+
+(* filter_fn is the membership test of the kept ids, as in HeapOps.v *)
+Theorem filter_leaf_nodes_refines : forall (fuel : nat) (keep : list Z) (recursive ub su : bool) (h : heap),
+  (fuel_of h <= fuel)%nat ->
+  filter_leaf_nodes keep recursive ub su h <> HFuel ->
+  to_hres (Tree_filter_leaf_nodes HG fuel (fun nd => memz nd keep) recursive ub su h)
+  = filter_leaf_nodes keep recursive ub su h.
+Proof. exact gen_filter_leaf_nodes. Qed.
+Print Assumptions filter_leaf_nodes_refines.
+
+Theorem prune_nodes_refines : forall (fuel : nat) (nodes : list Z) (plwt ub su : bool) (h : heap),
+  (forall h1, hfold (remove_from_parent OtherErr) nodes h = HOk h1 -> (fuel_of h1 <= fuel)%nat) ->
+  prune_nodes nodes plwt ub su h <> HFuel ->
+  to_hres (Tree_prune_nodes HG fuel nodes plwt ub su h) = prune_nodes nodes plwt ub su h.
+Proof. exact gen_prune_nodes. Qed.
+Print Assumptions prune_nodes_refines.
+
+Theorem prune_taxa_refines : forall (fuel : nat) (taxa : list Z) (ub su ol oi : bool) (h : heap),
+  (forall t h1, abs_at h (seed h) = Some t ->
+                hfold (prune_taxa_step taxa ol oi) (post_ids t) h = HOk h1 -> (fuel_of h1 <= fuel)%nat) ->
+  prune_taxa taxa ub su ol oi h <> HFuel ->
+  to_hres (Tree_prune_taxa HG fuel taxa ub su ol oi h) = prune_taxa taxa ub su ol oi h.
+Proof. exact gen_prune_taxa. Qed.
+Print Assumptions prune_taxa_refines.
+
+Theorem retain_taxa_refines : forall (fuel : nat) (namespace taxa : list Z) (ub su : bool) (h : heap),
+  (forall t h1, abs_at h (seed h) = Some t ->
+                hfold (prune_taxa_step (filter (fun x => negb (memz x taxa)) namespace) true false) (post_ids t) h = HOk h1 ->
+                (fuel_of h1 <= fuel)%nat) ->
+  retain_taxa namespace taxa ub su h <> HFuel ->
+  to_hres (Tree_retain_taxa HG fuel namespace taxa ub su h) = retain_taxa namespace taxa ub su h.
+Proof. exact gen_retain_taxa. Qed.
+Print Assumptions retain_taxa_refines.
+
+(* prune_taxa_with_labels / retain_taxa_with_labels: get_taxa is TaxonNamespace.get_taxa(labels=...) of the
+   tree's namespace (an uninterpreted function here, property C10), then the unlabelled method *)
+Theorem with_labels_delegate :
+  forall (fuel : nat) (namespace : list Z) (get_taxa : list Z -> list Z) (labels : list Z) (ub su ol oi : bool) (h : heap),
+  to_hres (Tree_prune_taxa_with_labels HG fuel get_taxa labels ub su ol oi h)
+  = to_hres (Tree_prune_taxa HG fuel (get_taxa labels) ub su ol oi h) /\
+  to_hres (Tree_retain_taxa_with_labels HG fuel namespace get_taxa labels ub su h)
+  = to_hres (Tree_retain_taxa HG fuel namespace (get_taxa labels) ub su h).
+Proof. exact gen_with_labels. Qed.
+Print Assumptions with_labels_delegate.
+
+(* ---- further Tree / Node mutators ---- *)
+Theorem collapse_clade_refines : forall (c : Z) (h : heap),
+  to_hres (Node_collapse_clade HG c h) = collapse_clade c h.
+Proof. exact gen_collapse_clade. Qed.
+Print Assumptions collapse_clade_refines.
+
+(* collapse_unweighted_edges(threshold in length units): the edges of the post-order read at loop entry
+   (x_postorder_nodes + node._edge; property C15 relates postorder_edge_iter to it); hypothesis as for
+   suppress_unifurcations: no visited node is its own child when it is visited (Edge.collapse) *)
+Theorem collapse_unweighted_edges_refines : forall (thr : Z) (ub : bool) (h : heap),
+  (forall t, abs_at h (seed h) = Some t -> steps_ok (cue_step thr) (post_ids t) h) ->
+  to_hres (Tree_collapse_unweighted_edges HG thr ub h) = collapse_unweighted_edges thr ub h.
+Proof. exact gen_collapse_unweighted_edges. Qed.
+Print Assumptions collapse_unweighted_edges_refines.
+
+(* scripted rng: the script is the list of index lists consumed by rng.shuffle (one per internal node:
+   for each new position the old index) and, for randomly_reorient, first [pick] for rng.sample(nodes, 1) *)
+Theorem randomly_rotate_refines : forall (perms : list (list nat)) (h : heap),
+  to_hres (Tree_randomly_rotate HG perms h) = randomly_rotate perms h.
+Proof. exact gen_randomly_rotate. Qed.
+Print Assumptions randomly_rotate_refines.
+
+Theorem randomly_reorient_refines : forall (pick : nat) (perms : list (list nat)) (ub : bool) (h : heap),
+  to_hres (Tree_randomly_reorient HG ([pick] :: perms) ub h) = randomly_reorient pick perms ub h.
+Proof. exact gen_randomly_reorient. Qed.
+Print Assumptions randomly_reorient_refines.
+
+(* Node._convert_node_to_root_polytomy is a Fixpoint on the fuel (one unit per recursive call, as
+   Heap.root_polytomy); polytomize_root with the fuel HeapOps.v uses *)
+Theorem polytomize_root_refines : forall (su : bool) (h : heap),
+  (forall fuel s h0, exists v, Node__convert_node_to_root_polytomy HG fuel s h0 = lift v (root_polytomy fuel s h0)) /\
+  to_hres (Tree_polytomize_root HG (fuel_of h) su h) = polytomize_root su h.
+Proof. exact (fun su h => conj gen_root_polytomy (gen_polytomize_root su h)). Qed.
+Print Assumptions polytomize_root_refines.
+
+(* ---- encode_bipartitions.  In the theorems above it is the interface operation x_encode_bipartitions,
+   instantiated with HeapOps.encode_structural.  On every well-formed heap (C03's invariant WFt h t: h
+   represents the rose tree t) that operation leaves exactly the tree computed by C01's GENERATED
+   Tree.encode_bipartitions (Gen/Bipartition.v, compiled from the source by the C01 translator): the
+   hand-written HeapOps.encode_structural is thereby tied to generated code as well. ---- *)
+Theorem encode_bipartitions_op_is_generated_structure :
+  forall (h : heap) (t : tree) (su cb ss mut : bool) (acc : Z -> Z) (g : genc),
+    WFt h t ->
+    gen_encode_bipartitions su cb ss mut acc (rooted h) t = Ok (Some g) ->
+    exists h', x_encode_bipartitions HG su cb h = MOk tt h' /\ WFt h' (ge_tree g) /\ next h' = next h.
+Proof. exact gen_encode_op_structure. Qed.
+Print Assumptions encode_bipartitions_op_is_generated_structure.
